@@ -30,7 +30,7 @@ fn fresh_deterministic(files: &[(String, String)], qs: &[String]) -> bool {
 fn class_of_c10(c: &WsCase) -> Value {
     // the probe (a copy of the last variant of file 0) is one more file of the history
     let mut c2 = c.clone();
-    let probe = c.files[0].1.last().cloned().unwrap_or_default();
+    let probe = c.probe_text();
     c2.files.push(("probe.lua".into(), vec![probe]));
     class_of(&c2)
 }
@@ -48,7 +48,7 @@ fn class_of(c: &WsCase) -> Value {
 // ---------------------------------------------------------------- C10
 
 fn gen_c10(rng: &mut Rng) -> WsCase {
-    let files = gen_files(rng);
+    let (files, probe) = gen_files_probe(rng);
     let n = files.len();
     let initial: Vec<usize> = (0..n).collect();
     let mut order: Vec<usize> = (0..n).collect();
@@ -63,7 +63,7 @@ fn gen_c10(rng: &mut Rng) -> WsCase {
         }
         ops.push(if rng.chance(1, 4) { AOp::Close(i) } else { AOp::Remove(i) });
     }
-    WsCase { files, initial, ops }
+    WsCase { files, initial, ops, probe: Some(probe) }
 }
 
 /// returns the failures of one C10 case
@@ -77,7 +77,7 @@ fn oracle_c10(c: &WsCase, report: &mut Report) -> Vec<String> {
     let base_sizes = sizes(&sim.a);
     {
         let probe_name = "probe.lua";
-        let text = c.files[0].1.last().cloned().unwrap_or_default();
+        let text = c.probe_text();
         let dbg = std::env::var("VH_DEBUG").is_ok();
         let before = if dbg { format!("{:#?}", sim.a.compilation.get_db().get_member_index()) } else { String::new() };
         sim.a.update_file_by_uri(&uri_of(probe_name), Some(text));
@@ -176,7 +176,7 @@ fn gen_c08(rng: &mut Rng) -> WsCase {
             ops.push(AOp::Update(i, 0));
         }
     }
-    WsCase { files, initial, ops }
+    WsCase { files, initial, ops, probe: None }
 }
 
 fn oracle_c08(c: &WsCase, report: &mut Report) -> Vec<String> {
@@ -250,7 +250,7 @@ fn gen_c09(rng: &mut Rng) -> WsCase {
         });
     }
     ops.push(AOp::Reindex);
-    WsCase { files, initial, ops }
+    WsCase { files, initial, ops, probe: None }
 }
 
 fn oracle_c09(c: &WsCase, report: &mut Report) -> Vec<String> {
@@ -296,16 +296,16 @@ fn corpus(prop: &str) -> Vec<WsCase> {
     ];
     match prop {
         "C10" => vec![
-            WsCase { files: plain.clone(), initial: vec![0, 1], ops: vec![AOp::Remove(0), AOp::Remove(1)] },
-            WsCase { files: split.clone(), initial: vec![0, 1, 2], ops: vec![AOp::Remove(1), AOp::Close(0)] },
+            WsCase { files: plain.clone(), initial: vec![0, 1], ops: vec![AOp::Remove(0), AOp::Remove(1)], probe: None },
+            WsCase { files: split.clone(), initial: vec![0, 1, 2], ops: vec![AOp::Remove(1), AOp::Close(0)], probe: None },
         ],
         "C08" => vec![
-            WsCase { files: plain.clone(), initial: vec![0, 1], ops: vec![AOp::Resubmit(0), AOp::Resubmit(1), AOp::Update(0, 1), AOp::Update(0, 0)] },
-            WsCase { files: split.clone(), initial: vec![0, 1, 2], ops: vec![AOp::Resubmit(1), AOp::Resubmit(2)] },
+            WsCase { files: plain.clone(), initial: vec![0, 1], ops: vec![AOp::Resubmit(0), AOp::Resubmit(1), AOp::Update(0, 1), AOp::Update(0, 0)], probe: None },
+            WsCase { files: split.clone(), initial: vec![0, 1, 2], ops: vec![AOp::Resubmit(1), AOp::Resubmit(2)], probe: None },
         ],
         _ => vec![
-            WsCase { files: plain.clone(), initial: vec![0, 1], ops: vec![AOp::Update(0, 1), AOp::Remove(1), AOp::Reindex] },
-            WsCase { files: split.clone(), initial: vec![0, 1, 2], ops: vec![AOp::Update(1, 1), AOp::Update(1, 0), AOp::Close(2), AOp::Reindex] },
+            WsCase { files: plain.clone(), initial: vec![0, 1], ops: vec![AOp::Update(0, 1), AOp::Remove(1), AOp::Reindex], probe: None },
+            WsCase { files: split.clone(), initial: vec![0, 1, 2], ops: vec![AOp::Update(1, 1), AOp::Update(1, 0), AOp::Close(2), AOp::Reindex], probe: None },
         ],
     }
 }
@@ -340,6 +340,8 @@ pub fn run(args: &Args, report: &mut Report) {
 
     let mut seen = HashSet::new();
     let mut excluded = 0u64;
+    // unclassified failures are reported first (the report keeps only the first 50 failures)
+    let mut classified: Vec<Value> = Vec::new();
     for c in &cases {
         report.evaluations += 1;
         // C11 exclusion: the fresh analysis of the initial files must itself be deterministic
@@ -374,11 +376,21 @@ pub fn run(args: &Args, report: &mut Report) {
             report.distinct_nontrivial += 1;
         }
         if let Some(first) = fails.first() {
-            report.oracle_failure(json!({"input": c.to_json(), "what": first, "all": fails.len(), "more": fails.iter().skip(1).take(4).collect::<Vec<_>>(), "class": if prop == "C10" { class_of_c10(c) } else { class_of(c) }}));
+            let class = if prop == "C10" { class_of_c10(c) } else { class_of(c) };
+            let v = json!({"input": c.to_json(), "what": first, "all": fails.len(), "more": fails.iter().skip(1).take(4).collect::<Vec<_>>(), "class": class});
+            if class.is_null() {
+                report.oracle_failure(v);
+            } else {
+                report.count(&format!("oracle_failures_class_{}", class.as_str().unwrap_or("?")));
+                classified.push(v);
+            }
         }
         if report.samples.len() < 2 {
             report.sample(json!({"case": c.to_json()}));
         }
+    }
+    for v in classified {
+        report.oracle_failure(v);
     }
     report.add("excluded_nondeterministic_fresh_analysis", excluded);
 
